@@ -1,6 +1,7 @@
 import NettyVerif.Proofs.Frame
 import NettyVerif.Proofs.VarLen
 import NettyVerif.Proofs.Guards
+import NettyVerif.Proofs.ExactReader
 /-! # C08 — Frame decoders never deliver a truncated, oversized or phantom frame
 
 Property theorems only, over the same executable codec model as C04 (Model/Frame.lean), for
@@ -156,6 +157,38 @@ example : lfFrameLength { big := true, max := 1024, offset := 0, fieldLen := 2, 
 
 end Guards
 
+/-! ### The exact-length reader, call by call (`Model/ExactReader.lean`, utils/reader.go)
+
+`drainExact` summarises a frame body as "the next `lim` bytes, or an error". The reader object behind
+it is modelled one `Read` at a time, and the summary's content is proved for every consumer: -/
+section ExactReader
+open NettyVerif.ExactR
+
+/-- **no consumer can get a truncated frame out of the exact reader as if it were complete**: for
+    every declared length `n`, every stream and fragmentation, every end-of-stream kind and every
+    sequence of buffer sizes (zero-length buffers included), what the consumer has when it stops is a
+    prefix of the stream of at most `n` bytes, nothing is lost or skipped (delivered ++ rest = stream),
+    and if what stopped it was a clean `io.EOF` it has exactly `n` bytes -/
+theorem C08_exact_reader_call_by_call (fin : RErr) (sizes : List Nat) (n : Nat) (cs : List Bytes) :
+    let r := consume read fin sizes [] (n : Int) cs
+    r.1 ++ r.2.2.1.flatten = cs.flatten ∧ r.1.length ≤ n ∧ (r.2.2.2 = some .eof → r.1.length = n) := by
+  obtain ⟨h1, h2, h3, h4⟩ := consume_inv fin sizes [] (n : Int) cs
+  simp only [List.nil_append, List.length_nil] at h1 h2
+  refine ⟨h1, ?_, ?_⟩
+  · have := h3 (by omega); omega
+  · intro he; have := h4 he; have := h3 (by omega); omega
+
+/-- the pinned reader (io.LimitReader): 2 bytes of a frame declared as 10, then a clean end -/
+theorem C08_exact_reader_pinned_truncates :
+    consume readPinned .eof [8, 8, 8] [] 10 [[97, 98]] = ([97, 98], 8, [], some .eof) := by decide
+
+-- the repaired reader on the same input: ErrUnexpectedEOF
+example : consume read .eof [8, 8, 8] [] 10 [[97, 98]] = ([97, 98], 8, [], some .unexpectedEOF) := by decide
+-- a complete frame read in pieces, through a zero-length buffer and across chunks: clean end after exactly 5 bytes
+example : consume read .eof [2, 0, 8, 8, 8] [] 5 [[1, 2, 3], [4, 5, 6]] = ([1, 2, 3, 4, 5], 0, [[6]], some .eof) := by decide
+
+end ExactReader
+
 end NettyVerif.C08
 
 #print axioms NettyVerif.C08.C08_variable_length_bounded
@@ -171,3 +204,5 @@ end NettyVerif.C08
 #print axioms NettyVerif.C08.C08_guards_lf_read
 #print axioms NettyVerif.C08.C08_guards_varint_read
 #print axioms NettyVerif.C08.C08_guards_constructors
+#print axioms NettyVerif.C08.C08_exact_reader_call_by_call
+#print axioms NettyVerif.C08.C08_exact_reader_pinned_truncates
